@@ -249,6 +249,8 @@ def _nt_c03(ev):
         return (k, ev["op"], ev["bk"], ev["xf"], ev["yf"], ev["n"])
     if k in ("pos", "view"):
         return (k, ev["xf"])
+    if k == "tinydiv":
+        return (k, ev["op"], ev["xf"], ev["yf"])
     if k == "step":
         o = ev["o"]
         return (k, o["t"], o["op"], o["dst"], o["l"], o["r"], o["k"], tuple(ev["sh"]))
